@@ -158,9 +158,12 @@ def run_and_validate(ctx, scenarios, tag, bound=None, batch=12, module="Trace_Ra
                 # a finding recorded for this forced schedule first, then the ones recorded for the flag alone
                 # (a finding recorded for one or several forced schedules is only recognised there: the same flag anywhere
                 #  else is a violation)
+                hist = _history_classes(dict((x[0]["id"], x[1]) for x in chunk)[sid])
                 kf = (ctx.known_matching(lambda m: m.get("kind") == "flag" and fl(m) and sched
                                          and (m.get("schedule") == sched or sched in (m.get("schedules") or [])))
-                      or ctx.known_matching(lambda m: m.get("kind") == "flag" and fl(m) and "schedule" not in m and "schedules" not in m))
+                      or ctx.known_matching(lambda m: m.get("kind") == "flag" and fl(m) and hist & set(m.get("histories") or []))
+                      or ctx.known_matching(lambda m: m.get("kind") == "flag" and fl(m) and "schedule" not in m and "schedules" not in m
+                                            and "histories" not in m))
                 summary.setdefault("flags", {}).setdefault(flag, []).append(sid)
                 if kf:
                     ctx.known_finding(kf, what)
@@ -222,6 +225,26 @@ def _panic_line(text):
         if l.startswith("panic:") or "fatal error" in l or "level=panic" in l:
             return l[:300]
     return text[-300:]
+
+
+def _history_classes(evs):
+    """classes of the recorded history that a recorded finding may name (KNOWN_FINDINGS.json, match.histories):
+    timeout-before-dispatch: an invocation ran into the function timeout before its event had been delivered to the
+    runtime (the environment was still being initialised for it)"""
+    out = set()
+    open_k = {}
+    for ev in evs:
+        k = ev.get("ev")
+        if k == "InvokeCall":
+            open_k[ev.get("k")] = False
+        elif k == "NextRet" and ev.get("who") == "rt" and ev.get("kind") == "INVOKE" and ev.get("status") == 200:
+            for kk in open_k:
+                open_k[kk] = True
+        elif k == "InvokeRet":
+            if ev.get("err") == "InvokeTimeout" and open_k.get(ev.get("k")) is False:
+                out.add("timeout-before-dispatch")
+            open_k.pop(ev.get("k"), None)
+    return out
 
 
 def _short(ev):
